@@ -523,8 +523,9 @@ pub fn w_program(k: usize, forms: &[usize]) -> Vec<u8> {
                 p.extend_from_slice(b"[<++++++++++++++++>-]<");
             }
         }
-        // nine rounds end on cell k+5; back to cell k+2
-        p.extend_from_slice(b"<<<");
+        // nine rounds end on cell k+5; +3 makes a lost constant visible in the low byte that `.` prints;
+        // back to cell k+2
+        p.extend_from_slice(b"+++<<<");
     }
     for _ in 0..k + 2 {
         p.push(b'<');
@@ -655,6 +656,244 @@ pub fn space_w(full: bool, f: &mut dyn FnMut(u64, &[u8])) -> u64 {
     } else {
         space_w_sized(&[2, 3, 11, 12, 13, 14], 1, f)
     }
+}
+
+// ---------------------------------------------------------------------------------------------
+// P: prefix chains. k data cells; one loop iteration runs the links d[i+1] (op)= d[i] for i = 1..k-1 in
+// order (d[i] preserved through a scratch cell), so the new value of every cell is an expression over
+// all cells before it. The optimiser turns the body into one simultaneous assignment whose common
+// sub-expressions (partial sums / products) are long-lived temporaries that are both stored and
+// used again: the JIT's temp-from-temp forms with stack temporaries (add S,S,M / add M,S,i / mul S,S,i ...).
+// Layout: c0 counter, c1..ck data, c(k+1), c(k+2) scratch.
+
+pub const P_SMALL_SCRIPT: &[u8] = &[2, 1, 3, 1, 2, 1, 1, 3, 2, 1, 1, 2, 3, 1, 2, 1, 1, 2, 1, 3];
+
+pub const P_LINKS: [&str; 10] = ["add", "sub", "add+5", "add3x", "mul", "rsub", "add-k", "mulk", "add+K", "mul+K"];
+
+/// d += [kc] (the loop-invariant wide constant, preserved through s1); pointer on a before and after
+fn add_wide(p: &mut Vec<u8>, a: i32, d: i32, s1: i32, kc: i32) {
+    go(p, a, kc);
+    p.extend_from_slice(b"[-");
+    go(p, kc, d);
+    p.push(b'+');
+    go(p, d, s1);
+    p.push(b'+');
+    go(p, s1, kc);
+    p.push(b']');
+    go(p, kc, s1);
+    p.extend_from_slice(b"[-");
+    go(p, s1, kc);
+    p.push(b'+');
+    go(p, kc, s1);
+    p.push(b']');
+    go(p, s1, a);
+}
+
+fn p_link(p: &mut Vec<u8>, link: usize, a: i32, s1: i32, s2: i32, kc: i32) {
+    // pointer is on cell a (source); the destination is a+1; returns with the pointer on a
+    let d = a + 1;
+    let copy_back = |p: &mut Vec<u8>| {
+        go(p, a, s1);
+        p.extend_from_slice(b"[-");
+        go(p, s1, a);
+        p.push(b'+');
+        go(p, a, s1);
+        p.push(b']');
+        go(p, s1, a);
+    };
+    match P_LINKS[link] {
+        "add" | "add+5" | "add3x" | "sub" | "add-k" | "add+K" => {
+            p.extend_from_slice(b"[-");
+            go(p, a, d);
+            match P_LINKS[link] {
+                "sub" => p.push(b'-'),
+                "add3x" => p.extend_from_slice(b"+++"),
+                _ => p.push(b'+'),
+            }
+            go(p, d, s1);
+            p.push(b'+');
+            go(p, s1, a);
+            p.push(b']');
+            copy_back(p);
+            if P_LINKS[link] == "add+5" {
+                go(p, a, d);
+                p.extend_from_slice(b"+++++");
+                go(p, d, a);
+            }
+            if P_LINKS[link] == "add-k" {
+                go(p, a, d);
+                p.extend_from_slice(b"-------");
+                go(p, d, a);
+            }
+            if P_LINKS[link] == "add+K" {
+                add_wide(p, a, d, s1, kc);
+            }
+        }
+        "rsub" => {
+            // d = a - d : move d to s2, then d += a (kept), d -= s2
+            go(p, a, d);
+            p.extend_from_slice(b"[-");
+            go(p, d, s2);
+            p.push(b'+');
+            go(p, s2, d);
+            p.push(b']');
+            go(p, d, a);
+            p.extend_from_slice(b"[-");
+            go(p, a, d);
+            p.push(b'+');
+            go(p, d, s1);
+            p.push(b'+');
+            go(p, s1, a);
+            p.push(b']');
+            copy_back(p);
+            go(p, a, s2);
+            p.extend_from_slice(b"[-");
+            go(p, s2, d);
+            p.push(b'-');
+            go(p, d, s2);
+            p.push(b']');
+            go(p, s2, a);
+        }
+        "mul" | "mulk" | "mul+K" => {
+            // d = d * a (a kept): move d to s2; for each unit of s2: d += a (a preserved through s1)
+            go(p, a, d);
+            p.extend_from_slice(b"[-");
+            go(p, d, s2);
+            p.push(b'+');
+            go(p, s2, d);
+            p.push(b']');
+            go(p, d, s2);
+            p.extend_from_slice(b"[-");
+            go(p, s2, a);
+            p.extend_from_slice(b"[-");
+            go(p, a, d);
+            p.push(b'+');
+            go(p, d, s1);
+            p.push(b'+');
+            go(p, s1, a);
+            p.push(b']');
+            copy_back(p);
+            go(p, a, s2);
+            p.push(b']');
+            go(p, s2, a);
+            if P_LINKS[link] == "mulk" {
+                // then d = 3*d through s2
+                go(p, a, d);
+                p.extend_from_slice(b"[-");
+                go(p, d, s2);
+                p.extend_from_slice(b"+++");
+                go(p, s2, d);
+                p.push(b']');
+                go(p, d, s2);
+                p.extend_from_slice(b"[-");
+                go(p, s2, d);
+                p.push(b'+');
+                go(p, d, s2);
+                p.push(b']');
+                go(p, s2, a);
+            }
+            if P_LINKS[link] == "mul+K" {
+                add_wide(p, a, d, s1, kc);
+            }
+        }
+        _ => unreachable!(),
+    }
+}
+
+pub fn p_program(k: usize, links: &[usize], iters: usize, print_inside: bool) -> Vec<u8> {
+    let mut p = Vec::new();
+    for _ in 0..iters {
+        p.push(b'+');
+    }
+    for _ in 0..k {
+        p.extend_from_slice(b">,");
+    }
+    let (s1, s2, kc) = ((k + 1) as i32, (k + 2) as i32, (k + 3) as i32);
+    if links.iter().take(k - 1).any(|&l| P_LINKS[l].ends_with('K')) {
+        // the wide constant 2*16^9 = 2^37 in cell k+3, built by constant-foldable loops in cells k+3 / k+4
+        go(&mut p, k as i32, kc);
+        p.extend_from_slice(b"++");
+        for r in 0..9 {
+            if r % 2 == 0 {
+                p.extend_from_slice(b"[>++++++++++++++++<-]>");
+            } else {
+                p.extend_from_slice(b"[<++++++++++++++++>-]<");
+            }
+        }
+        // nine rounds end on cell k+4: move the value back into k+3; +3 makes a lost constant visible in the
+        // low byte that `.` prints
+        p.extend_from_slice(b"[-<+>]<+++");
+        go(&mut p, kc, k as i32);
+    }
+    for _ in 0..k {
+        p.push(b'<');
+    }
+    p.extend_from_slice(b"[-");
+    p.push(b'>');
+    for (i, l) in links.iter().take(k - 1).enumerate() {
+        let a = (i + 1) as i32;
+        p_link(&mut p, *l, a, s1, s2, kc);
+        if print_inside && i == k / 2 {
+            p.push(b'.');
+        }
+        p.push(b'>');
+    }
+    for _ in 0..k {
+        p.push(b'<');
+    }
+    p.push(b']');
+    for _ in 0..k {
+        p.extend_from_slice(b">.");
+    }
+    p
+}
+
+/// P: uniform chains, every single deviation (and, when `full`, every pair of deviations) from the
+/// uniform `add` and `mul` chains, for the given sizes.
+pub fn space_p(full: bool, f: &mut dyn FnMut(u64, &[u8])) -> u64 {
+    let ks: &[usize] = if full { &[3, 6, 10, 12, 13, 14, 15, 16, 18] } else { &[3, 12, 14, 16] };
+    let n = P_LINKS.len();
+    let mut idx = 0u64;
+    for &k in ks {
+        let m = k - 1;
+        for base in 0..n {
+            let mut links = vec![base; m];
+            for inside in [false, true] {
+                f(idx, &p_program(k, &links, 2, inside));
+                idx += 1;
+            }
+            f(idx, &p_program(k, &links, 1, false));
+            idx += 1;
+            if base != 0 && base != 4 && !full {
+                continue;
+            }
+            for i in 0..m {
+                for a in 0..n {
+                    if a == base {
+                        continue;
+                    }
+                    links[i] = a;
+                    f(idx, &p_program(k, &links, 2, false));
+                    idx += 1;
+                    if full {
+                        for j in i + 1..m {
+                            for b in 0..n {
+                                if b == base {
+                                    continue;
+                                }
+                                links[j] = b;
+                                f(idx, &p_program(k, &links, 2, false));
+                                idx += 1;
+                            }
+                            links[j] = base;
+                        }
+                    }
+                }
+                links[i] = base;
+            }
+        }
+    }
+    idx
 }
 
 // ---------------------------------------------------------------------------------------------
@@ -856,6 +1095,80 @@ pub fn space_m(full: bool) -> Vec<Vec<u8>> {
         }
         p.extend_from_slice(b"<.");
         v.push(p);
+    }
+    v.extend(space_t(full));
+    v
+}
+
+/// T: stride loops. A loop whose body has a net pointer shift of exactly n cells (either direction),
+/// executed twice, for every n around the encoding boundaries of the move (±128 bytes = 128/64/32/16
+/// cells at 8/16/32/64 bit for the JIT's imm8 form, page-sized strides). Cell 0 = 1, cell ±n = 2:
+/// the loop hops 0 -> n -> 2n; the three cells are printed afterwards, so a hop that lands anywhere
+/// else changes the output (and, under the guard allocator, may fault).
+pub fn space_t(full: bool) -> Vec<Vec<u8>> {
+    let mut strides: Vec<usize> = (1..=20).collect();
+    strides.extend_from_slice(&[31, 32, 33, 63, 64, 65, 127, 128, 129, 255, 256, 257]);
+    if full {
+        strides = (1..=300).collect();
+        strides.extend_from_slice(&[511, 512, 513, 1000, 1023, 1024, 1025, 4095, 4096, 4097]);
+    }
+    let mut v = Vec::new();
+    for &n in &strides {
+        for dir in [b'>', b'<'] {
+            let back = if dir == b'>' { b'<' } else { b'>' };
+            for variant in 0..2 {
+                let mut p = Vec::new();
+                p.push(b'+');
+                rep(&mut p, dir, n);
+                p.extend_from_slice(b"++");
+                rep(&mut p, back, n);
+                p.extend_from_slice(b"[-");
+                if variant == 1 {
+                    // the hop split around a store, so that the move is not the whole body
+                    rep(&mut p, dir, n / 2);
+                    p.push(b'+');
+                    rep(&mut p, dir, n - n / 2);
+                } else {
+                    rep(&mut p, dir, n);
+                }
+                p.push(b']');
+                p.push(b'.');
+                rep(&mut p, back, n);
+                p.push(b'.');
+                rep(&mut p, back, n);
+                p.push(b'.');
+                if variant == 1 {
+                    rep(&mut p, dir, n / 2);
+                    p.push(b'.');
+                    rep(&mut p, dir, n);
+                    p.push(b'.');
+                }
+                v.push(p);
+            }
+        }
+    }
+    v
+}
+
+/// Q: quotient probes. `,[-{s}>+<]>` divides an input byte by the odd step s (the optimiser closes the loop
+/// through the 2-adic inverse of s); the quotient is then compared with every small constant q by a
+/// zero test that prints, so wrong high bits of the quotient (invisible in the low byte) are observed.
+/// Run on every single-byte input: at 8 bit every input terminates (wrap-around), at wider cells only
+/// the multiples of s do (the rest are canonically out of reach and skipped).
+pub fn space_q() -> Vec<Vec<u8>> {
+    let mut v = Vec::new();
+    for s in [3usize, 5, 7, 9, 11, 13, 15, 17, 51, 85] {
+        for q in [0usize, 1, 2, 3, 5] {
+            for up in [false, true] {
+                let mut p = Vec::new();
+                p.extend_from_slice(b",[");
+                rep(&mut p, b'-', s);
+                p.extend_from_slice(if up { b">+<]>" } else { b">-<]>" });
+                rep(&mut p, if up { b'-' } else { b'+' }, q);
+                p.extend_from_slice(b"[[-]<+.>]<.");
+                v.push(p);
+            }
+        }
     }
     v
 }
